@@ -259,6 +259,10 @@ def check(run):
     ncp = engines.copy_sources_advance(run, [f for f in fx.repo_functions() if q.top_function(fx, f).cls == U])
     if ncp < 1:
         run.broke('udp::socket: no copy out of the incoming queue found in a loop (read idiom changed)')
+    run.clause('a receive hands out bytes of the datagram only: every copy out of a packet is bounded by what is left of the payload behind the read position (shared with C01/C05)')
+    ncw = engines.copies_within_source(run, [f for f in fx.repo_functions() if q.top_function(fx, f).cls in (U, 'sim::asio::ip::tcp::socket')])
+    if ncw < 2:
+        run.broke('fewer than 2 copies out of packet payloads found (udp receive_from_impl, tcp read_some_impl)')
     run.clause('a datagram goes only to the socket bound to exactly the destination endpoint: registry lookups select by exact key (shared with C11)')
     import p11
     p11.exact_key_rule(run)
@@ -266,6 +270,40 @@ def check(run):
     ec_sets_rule(run, [(U + '::receive_from_impl', None), (U + '::send_to_impl', None), ('sim::asio::ip::tcp::socket::read_some_impl', None), ('sim::asio::ip::tcp::socket::write_some_impl', None),
                        (U + '::open', 'error_code'), (U + '::close', 'error_code'), (U + '::cancel', 'error_code'),
                        ('sim::asio::ip::tcp::socket::open', 'error_code'), ('sim::asio::ip::tcp::socket::close', 'error_code'), ('sim::asio::ip::tcp::socket::cancel', 'error_code'), ('sim::asio::ip::tcp::socket::available', 'error_code')])
+    run.clause('a reader that keeps its queue drained loses nothing: the receive queue admits the largest datagram send_to accepts (65535 bytes plus the 28 bytes of overhead the queue accounts for) when it is empty')
+    ipk_ = fx.fn1(U + '::incoming_packet')
+    run.touch(ipk_)
+    nlim = 0
+    for n_ in ipk_.all_nodes():
+        c_ = q.cmp_atom(n_) if n_['k'] in ('bin', 'call') else None
+        if not c_ or c_[0] not in ('>', '>=', '<', '<='):
+            continue
+        sides = [q.render(ipk_, q.strip_casts(y)).replace('this->', '') for y in c_[1:]]
+        if not any('m_queue_size' in t_ for t_ in sides):
+            continue
+        lim_node = c_[2] if 'm_queue_size' in sides[0] else c_[1]
+        def _val(e, depth=0):
+            v = q.const_eval(ipk_, e, lambda t: None)
+            if isinstance(v, int) and not isinstance(v, bool):
+                return v
+            e_ = q.strip_casts(e)
+            if is_node(e_) and e_['k'] == 'bin' and e_['op'] in ('*', '+', '-') and depth < 4:
+                a_, b_ = _val(e_['lhs'], depth + 1), _val(e_['rhs'], depth + 1)
+                if a_ is not None and b_ is not None:
+                    return {'*': a_ * b_, '+': a_ + b_, '-': a_ - b_}[e_['op']]
+            if is_node(e_) and e_['k'] == 'member' and e_.get('mk') == 'field':
+                for r_ in fx.records.values():           # a member limit: its in-class initialiser is what an untouched socket has
+                    for f_ in r_['fields']:
+                        if f_['name'] == e_.get('name') and f_.get('init_v') is not None and r_['norm'] in (e_.get('q', '').rsplit('::', 1)[0], 'sim::asio::socket_base'):
+                            return f_['init_v']
+            return None
+        v = _val(lim_node)
+        nlim += 1
+        run.check(v is not None and v >= 65535 + 28, 'R5', 'receive-queue-admits-largest-datagram', U + '::incoming_packet: ' + q.render(ipk_, n_)[:60], ipk_.loc(n_),
+                  'the receive queue refuses what exceeds %s (= %s): with an EMPTY queue a datagram of more than %s bytes - which send_to accepts up to 65535 - is discarded although the reader keeps its queue drained' % (q.render(ipk_, lim_node), v, (v - 28) if isinstance(v, int) else '?'),
+                  'the limit (%s) admits 65535 + 28 bytes on an empty queue' % v)
+    if nlim < 1:
+        run.broke('udp::socket::incoming_packet: no comparison of m_queue_size with a limit found')
     run.clause('a datagram that crossed a NAT is reported with the NAT\'s external address: the rewrite of the visible source is unconditional (shared with C13)')
     import p13
     p13.nat_from_rule(run)
